@@ -18,7 +18,7 @@ class Ref:
     def __init__(self, dump, g=None, oracle=None):
         self.dump = dump
         self.g = g or textbook.Grammar(dump).analyse()
-        self.oracle = oracle or (lambda kind, num, k: False)
+        self.oracle = oracle or (lambda kind, num, k, la: False)
         self.skipped = set()
         skip_ids = set(dump['sema']['skipped'])
         for t in dump['tokens']:
@@ -30,6 +30,16 @@ class Ref:
     # ---- helpers
     def cur(self):
         return self.toks[self.pos] if self.pos < len(self.toks) else self.eoi
+
+    def lookahead(self):
+        """what peek(0), peek(1), peek(2) and peek_left(1) return at this point (token names)"""
+        n = len(self.toks)
+        pk = [self.toks[self.pos + i] if self.pos + i < n else self.eoi for i in range(3)]
+        if self.pos < n:
+            l1 = self.toks[self.pos - 1] if self.pos >= 1 else self.eoi
+        else:
+            l1 = self.toks[n - 2] if n >= 2 else self.eoi
+        return pk + [l1]
 
     def advance(self, children):
         children.append(('t', self.toks[self.pos], self.idx[self.pos]))
@@ -48,7 +58,7 @@ class Ref:
             return True
         if p.get('is_true'):
             return True
-        return self.oracle(0, int(p['value'][1:]), self.pos)
+        return self.oracle(0, int(p['value'][1:]), self.pos, self.lookahead())
 
     def leading_pred(self, x):
         if x['k'] == 'concat' and x['ops'] and x['ops'][0]['k'] == 'pred':
@@ -176,7 +186,7 @@ class Ref:
         elif k == 'action':
             self.actions.append((env['rule']['name'], int(x['value'][1:]), self.idx[self.pos] if self.pos < len(self.idx) else self.total()))
         elif k == 'assert':
-            if self.oracle(1, int(x['value'][1:]), self.pos):
+            if self.oracle(1, int(x['value'][1:]), self.pos, self.lookahead()):
                 raise Fail()
         elif k == 'rename':
             v = x['value'][1:]
